@@ -107,7 +107,8 @@ func main() {
 		"distinct by (ip count, allocated count, key kinds present)."
 	run.Assume("crdIpam.ByPrefix is a strings.HasPrefix filter over allocated keys (the batch-level prefix law uses HasPrefix over the batch; the API cases call the real ByPrefix)")
 	run.Assume("fake clientsets (k8s.io/client-go fake, galaxy fake) stand in for the API server; the pod lister is a real informer lister over them")
-	run.Assume("owner kinds admitted by an API server lower-case to a DNS-1035 label; kinds with '_' and free-text pool annotations are separately signed classes; names outside DNS-1123 are outside the quantifier")
+	run.Assume("owner kinds admitted by an API server lower-case to a DNS-1035 label; free-text pool annotations are a separately signed class; kinds with '_' and names outside DNS-1123 are outside the quantifier (counted as outsideq_*, never a violation)")
+	run.Assume("an entry listed releasable:false that is released when posted back is an observation (obs_unreleasable_entry_released_*), not a violation, unless it frees a live pod's ip")
 	run.Assume("the go-restful container is a private one (restful.NewContainer) instead of the process-global DefaultContainer; routes are mounted with the same path, Consumes/Produces and handlers as startAPIServer")
 
 	workers := runtime.NumCPU()
